@@ -58,7 +58,7 @@ def run(chk, tier, seed):
     pinc_sets = [[], [(star,)], [(('gs',), ('sep',)) + txt], [d + (('sep',),) + (star,)], [(star, ('sep',), star)], [txt], [(('gs',), ('sep',), L('a'))]]
     dir_sets = [([], []), ([d], []), ([], [d]), ([e], []), ([(L('.'), star)], []), ([a], [])]
     pdir_sets = [([], []), ([d + (('sep',),) + e], []), ([(('gs',), ('sep',)) + e], []), ([d], []), ([(star, ('sep',), L('a'))], []),
-                 ([d + (('sep',),)], []), ([(('gs',), ('sep',)) + e + (('sep',),)], []), ([], [d + (('sep',),)])]      # exclude patterns that end in a separator: directories are shown with one
+                 ([d + (('sep',),)], []), ([(('gs',), ('sep',)) + e + (('sep',),)], []), ([], [d + (('sep',),)]), ([a + (('sep',),)], []), ([a + (('sep',), ('sep',))], [])]      # exclude patterns that end in a separator: directories are shown with one
     bits = [WM.RV, WM.HD, WM.SL, WM.X, WM.G, WM.E, WM.I, WM.M]
     flagsets = [0, WM.RV, WM.RV | WM.HD, WM.RV | WM.SL, WM.RV | WM.HD | WM.SL, WM.RV | WM.E, WM.RV | WM.I, WM.RV | WM.M | WM.E, WM.HD]
     cases = []
@@ -68,7 +68,8 @@ def run(chk, tier, seed):
                 continue
             for dinc, dexc in dir_sets[:: (2 if tier == 'quick' else 1)]:
                 cases.append((inc, exc, dinc, dexc, fl))
-    for fl in (WM.RV | WM.FP, WM.RV | WM.FP | WM.G, WM.RV | WM.FP | WM.X, WM.RV | WM.DP, WM.RV | WM.DP | WM.FP | WM.G, WM.RV | WM.DP | WM.G | WM.HD, WM.RV | WM.FP | WM.X | WM.G):
+    for fl in (WM.RV | WM.FP, WM.RV | WM.FP | WM.G, WM.RV | WM.FP | WM.X, WM.RV | WM.DP, WM.RV | WM.DP | WM.FP | WM.G, WM.RV | WM.DP | WM.G | WM.HD, WM.RV | WM.FP | WM.X | WM.G,
+               WM.RV | WM.DP | WM.X, WM.RV | WM.DP | WM.X | WM.HD | WM.I):      # MATCHBASE with DIRPATHNAME: a pattern whose only separator is the trailing one is still anchored
         for inc in (pinc_sets if fl & WM.FP else inc_sets[:4]):
             for dinc, dexc in (pdir_sets if fl & WM.DP else dir_sets[:3]):
                 cases.append((inc, [], dinc, dexc, fl))
